@@ -334,6 +334,9 @@ var fixedAltRules = []ruleDef{
 	{pats: []string{`K4a~(?P<word>\w+)`, `K4b~(?P<word>\w+)`}, filter: eq("word", "lo"), msg: "A4 [$word]", markers: []string{"K4a", "K4b"}},
 	{pats: []string{`K4b~(?P<word>\w+)`, `K4a~(?P<word>\w+)`}, filter: matches("word", `^h`), msg: "A5 [$word]", at: "word", markers: []string{"K4a", "K4b"}},
 	{pats: []string{`K4a~(?P<word>\w*)`}, msg: "A6 rest [$word]", sugg: "$word"},
+	// an alternative written twice (it can never match first: its line is nobody's), another alternative after it
+	{pats: []string{`K8a~(?P<word>\w+)`, `K8a~(?P<word>\w+)`, `K8b~(?P<word>\w+)`, `K8b~(?P<word>\w+)`, `K8c~(?P<word>\w*)`}, filter: ne("word", "x"), msg: "A8 [$word] $$",
+		markers: []string{"K8a", "K8b", "K8c"}},
 	// the shared names in the other order, a Line filter between them
 	{pats: []string{`(?s)K7a~(?P<word>\w+)\s+(?P<w2>\w+)`, `(?s)K7b~(?P<w2>\w+)\s+(?P<word>\w+)`, `(?s)K7c~(?P<word>\w+)\s+(?P<w2>\w+)`, `K7d~(?P<w2>(?P<word>\w+))`},
 		filter: or(linelt("word", "w2"), eq("word", "hum")), msg: "A7 $word/$w2 $$", at: "w2", sugg: "$w2 $word",
@@ -345,7 +348,7 @@ var fixedAltRules = []ruleDef{
 // call matches and its filter rejects before a later one reports; the next call over the same markers reports
 var altFixed = []string{
 	"// K0b~hum K0a~lo", "// K0b~w9", "/* K2a~x K2b~lo */", "// K2b~lo K2a~", "// K4a~hum K4b~lo", "// K4b~hum K4a~w9", "// K4a~w9",
-	"// K1b~hum K1a~w9", "/* K3c~x K3a~lo */", "// K1c~lo", "/* K7b~lo\nhum K7a~lo hum */", "/* K7d~hum K7c~x\nxx */",
+	"// K1b~hum K1a~w9", "/* K3c~x K3a~lo */", "// K1c~lo", "// K8b~lo", "/* K8c~hum K8b~x */", "// K8c~w9", "/* K7b~lo\nhum K7a~lo hum */", "/* K7d~hum K7c~x\nxx */",
 }
 
 var altWords = []string{"lo", "hum", "x", "xx", "w9", "é", ""}
@@ -373,6 +376,12 @@ func altRule(rng *rand.Rand, j int) ruleDef {
 			p = "(" + mk + ")(~)" + named(rng, "word", `\w+`)
 		}
 		d.pats = append(d.pats, p)
+	}
+	if rng.Intn(3) == 0 {
+		// one of the alternatives once more, right behind itself or at the end
+		k := rng.Intn(len(d.pats))
+		at := []int{k + 1, len(d.pats)}[rng.Intn(2)]
+		d.pats = append(d.pats[:at], append([]string{d.pats[k]}, d.pats[at:]...)...)
 	}
 	w := altWords[rng.Intn(len(altWords)-1)]
 	switch rng.Intn(6) {
